@@ -196,9 +196,9 @@ def _tolerant(ref, labels):
         e.ulp = ulp_of(MAXV)
         e.tol = 2
         return e
-    if exact:
-        return Exp("num", v, labels=list(labels) + lb + ["exact-result"])
-    return Exp("num", v, tol=2, ulp=ulp_of(v), ref=ref if refd is None else refd, labels=list(labels) + lb + ["inexact"])
+    # the 2 ulp are granted to the operation (exp, ln, real powers), also where the reference happens to be representable
+    return Exp("num", v, tol=2, ulp=ulp_of(v), ref=ref if refd is None else refd,
+               labels=list(labels) + lb + (["reference-representable"] if exact else ["inexact"]))
 
 
 def _pow(a, b):
@@ -275,16 +275,12 @@ def _exp(a):
         return Exp("null", why="overflow: beyond the largest decimal128 value", labels=["overflow"])
     if a < -14300:
         return Exp("num", Decimal((0, (0,), ETINY)), labels=["underflow-to-zero", "inexact"])
-    if a == 0:
-        return Exp("num", Decimal(1), labels=["exact-result"])
     return _tolerant(HP.exp(a), [])
 
 
 def _log(a):
     if a <= 0:
         return Exp("null", why="logarithm of a non-positive number is undefined", labels=["undefined"])
-    if a == 1:
-        return Exp("num", Decimal(0), labels=["exact-result"])
     return _tolerant(HP.ln(a), [])
 
 
